@@ -1,0 +1,14 @@
+//go:build verif
+
+package mtproto
+
+// VerifPointHook receives every pass through a named yield point (send.enter, send.msgid, send.written,
+// call.response, recv.dispatch, salt.adopted) so that the external verification harness (/verif) can record the
+// order of steps and hold or release goroutines there. nil = no effect.
+var VerifPointHook func(name string, args ...any)
+
+func verifPoint(name string, args ...any) {
+	if h := VerifPointHook; h != nil {
+		h(name, args...)
+	}
+}
